@@ -412,8 +412,8 @@ def main(chk):
         add('S3', [sp for sp in G.s3_specs(True) if sp[3] in fills], 110, uns)
     if chk.want('S4'):
         trees = []
-        maxn = 3 if quick else 5
-        cap = int(os.environ.get('C01_S4_CAP', '0')) or (10 ** 9 if quick else 30000)
+        maxn = 4 if quick else 5
+        cap = int(os.environ.get('C01_S4_CAP', '0')) or 10 ** 9
         total = 0
         for n in range(1, maxn + 1):
             for t in G.trees(n):
@@ -422,7 +422,7 @@ def main(chk):
                     trees.append(t)
         if total > len(trees):
             s4cap = {'trees_in_bound': total, 'trees_run': len(trees), 'order': 'by node count, then grammar order'}
-            chk.notes.append('S4: %d of the %d statement trees with <= %d nodes were run (cap; all trees with <= 4 nodes are included)' % (len(trees), total, maxn))
+            chk.notes.append('S4: %d of the %d statement trees with <= %d nodes were run (cap)' % (len(trees), total, maxn))
         add('S4', trees, 150)
     if chk.want('S5'):
         add('S5', list(G.s5_specs()), 100)
